@@ -1072,7 +1072,7 @@ class VM:
                 return obj._element_size
             if key_str == "buffer":
                 # Return the underlying buffer if it exists
-                return getattr(obj, "_buffer", UNDEFINED)
+                return getattr(obj, "_buffer", None) or UNDEFINED
             # Built-in typed array methods
             typed_array_methods = ["toString", "join", "subarray", "set"]
             if key_str in typed_array_methods:
